@@ -7,6 +7,7 @@ import Verif.Proofs.C09Json
 import Verif.Proofs.C09XmlMain
 import Verif.Proofs.C09SvgMain
 import Verif.Proofs.C09Css
+import Verif.Proofs.C09Html
 /-!
 # C09 — accepted input yields syntactically valid output that is accepted again
 
@@ -220,5 +221,80 @@ theorem css_string_closed_partial : type_of% @Verif.Proofs.C09Css.css_string_clo
     (K-C09-CSS-11) -/
 theorem css_string_closed_counterexample : type_of% @Verif.Proofs.C09Css.css_string_closed_counterexample :=
   @Verif.Proofs.C09Css.css_string_closed_counterexample
+/-! ## HTML -/
+
+/-- **HTML attribute values**: the bytes of `EscapeAttrVal` are read by the standard's tokenizer as one value in the form
+    chosen, ending where the bytes end, decoding to the value meant; unquoted only when conforming -/
+theorem html_attr_value_roundtrip : type_of% @Verif.Proofs.C09Html.html_attr_value_roundtrip :=
+  @Verif.Proofs.C09Html.html_attr_value_roundtrip
+
+/-- **HTML `&` ambiguity**: what html.go does to the references of a plain attribute value, then `EscapeAttrVal`, is read
+    back as the input value — guard = C03's open findings K-C03-3 (hex overflow), K-C03-13 (CR + LF reference) -/
+theorem html_attr_written_value_partial : type_of% @Verif.Proofs.C09Html.html_attr_written_value_partial :=
+  @Verif.Proofs.C09Html.html_attr_written_value_partial
+
+/-- the guard is needed (K-C03-3) -/
+theorem html_attr_written_value_counterexample : type_of% @Verif.Proofs.C09Html.html_attr_written_value_counterexample :=
+  @Verif.Proofs.C09Html.html_attr_written_value_counterexample
+
+/-- **HTML start tags**: `<name` + the attributes the model writes + `>` is read as ONE start tag with the attribute list
+    meant (names in order, values decoding to the values handed to `EscapeAttrVal`), not self-closing, for every option
+    set and every attribute branch of html.go; guards: names without `/`, no template attributes -/
+theorem html_start_tag_retokenises : type_of% @Verif.Proofs.C09Html.html_start_tag_retokenises :=
+  @Verif.Proofs.C09Html.html_start_tag_retokenises
+
+/-- the same for one step of the token loop, hypotheses on the lexer's start-tag token only -/
+theorem html_start_tag_step : type_of% @Verif.Proofs.C09Html.html_start_tag_step :=
+  @Verif.Proofs.C09Html.html_start_tag_step
+
+/-- **HTML raw-text elements** (script, style, iframe, textarea): the content the model writes does not end the element
+    early and the end tag ends it; guard: no `<!--` in a script (K-C09-HTML-8); contract `SubKeeps` on the sub-minifier -/
+theorem html_rawtext_end_stable_partial : type_of% @Verif.Proofs.C09Html.html_rawtext_end_stable_partial :=
+  @Verif.Proofs.C09Html.html_rawtext_end_stable_partial
+
+/-- without the `<!--` guard it is false (script-data-double-escaped state) -/
+theorem html_rawtext_end_stable_counterexample : type_of% @Verif.Proofs.C09Html.html_rawtext_end_stable_counterexample :=
+  @Verif.Proofs.C09Html.html_rawtext_end_stable_counterexample
+
+/-- **HTML comments**: every comment written is one comment token; guard K-C09-HTML-1, contract K-C09-HTML-3 -/
+theorem html_comment_closed_partial : type_of% @Verif.Proofs.C09Html.html_comment_closed_partial :=
+  @Verif.Proofs.C09Html.html_comment_closed_partial
+
+/-- `<!-->x-->` kept verbatim is not one comment (K-C09-HTML-1) -/
+theorem html_comment_closed_counterexample : type_of% @Verif.Proofs.C09Html.html_comment_closed_counterexample :=
+  @Verif.Proofs.C09Html.html_comment_closed_counterexample
+
+/-- **HTML, the whole output** (flagship): under the decidable guard `walk` (text pieces `textSafe`, comments `goodComment`,
+    good tag/attribute names, no template/svg/math token, raw-text content without its end tag and without `<!--` in a
+    script) the output of the model is the concatenation of its per-token pieces and re-tokenises, by the HTML standard,
+    to exactly what each piece is on its own — for every option set, sub-minifier and token stream -/
+theorem html_output_retokenises_partial : type_of% @Verif.Proofs.C09Html.html_output_retokenises_partial :=
+  @Verif.Proofs.C09Html.html_output_retokenises_partial
+
+/-- without the guard it is false: a removed comment between `<` and `b>` creates a tag (K-C09-HTML-4) -/
+theorem html_output_retokenises_counterexample : type_of% @Verif.Proofs.C09Html.html_output_retokenises_counterexample :=
+  @Verif.Proofs.C09Html.html_output_retokenises_counterexample
+
+/-- the same over the lexer grammar `lexShape` -/
+theorem html_output_retokenises_lexshape_counterexample :
+    type_of% @Verif.Proofs.C09Html.html_output_retokenises_lexshape_counterexample :=
+  @Verif.Proofs.C09Html.html_output_retokenises_lexshape_counterexample
+
+/-- **HTML text**: a text token without a raw `<` is written without `<` — `&lt;` / `&#60;` / `&#x3C;` / `&LT` stay escaped —
+    for all options (whole regenerated entity tables) -/
+theorem html_text_lt_stays_escaped : type_of% @Verif.Proofs.C09Html.html_text_lt_stays_escaped :=
+  @Verif.Proofs.C09Html.html_text_lt_stays_escaped
+
+/-- html.go's reference decoding creates a tag from the text `<&#98;>` (K-C09-HTML-10) -/
+theorem html_text_safe_not_preserved : type_of% @Verif.Proofs.C09Html.html_text_safe_not_preserved :=
+  @Verif.Proofs.C09Html.html_text_safe_not_preserved
+
+/-- **HTML second pass**: on every token stream the model returns bytes or `ext missing` -/
+theorem html_second_pass_defined : type_of% @Verif.Proofs.C09Html.html_second_pass_defined :=
+  @Verif.Proofs.C09Html.html_second_pass_defined
+
+/-- html.go is not idempotent (not a C09 violation) -/
+theorem html_idempotent_counterexample : type_of% @Verif.Proofs.C09Html.html_idempotent_counterexample :=
+  @Verif.Proofs.C09Html.html_idempotent_counterexample
 
 end Verif.Props.C09
